@@ -230,7 +230,19 @@ def c03_r2(ctx: Ctx, rule):
         g = get_cfg(ctx, q)
         facts = notin_facts(ctx, q, g, fresh)
         nd = node_of(g, n)
-        ok = isinstance(key, ast.Name) and ("notin", key.id) in facts[nd.id]
+        # one registration writes the same key into the manager's dict and into its registry, in either order: the fact that counts
+        # is the one holding before the first store of that straight-line group
+        first = nd
+        while isinstance(key, ast.Name):
+            preds = [m for m in g.nodes if any(t is first for t, _lab in m.succ)]
+            if len(preds) != 1 or preds[0].stmt is None or not isinstance(preds[0].stmt, ast.Assign) or len(preds[0].succ) != 1 and not all(lab in ("next", "exc") for _t, lab in preds[0].succ):
+                break
+            pt = preds[0].stmt.targets[0]
+            if isinstance(pt, ast.Subscript) and isinstance(pt.slice, ast.Name) and pt.slice.id == key.id and norm(pt.value).split(".")[0] == "self":
+                first = preds[0]
+            else:
+                break
+        ok = isinstance(key, ast.Name) and ("notin", key.id) in facts[first.id]
         res.ob("%s: %s  [must-fact %s not in self: %s]" % (short(q), norm(n), norm(key), ok))
         if not ok:
             res.fail(rule.id, "overwrite::%s::%s" % (q, norm(n.targets[0])), ctx.loc(q, n),
